@@ -15,7 +15,7 @@ func init() {
 	register(&Property{
 		ID:      "C18",
 		NeedSSA: true,
-		Decided: "Structural necessary conditions: (aad) for every module type the writer-side and reader-side makeAAD call sites both exist, pass the same number of ordinals, and put row-group, column and page ordinals in that order (no ordinal position is fed from a field of another role); page header modules seal the serialised header and page body modules the body; (plaintext) in writeDataPage, writeDictionaryPage and writeBloomFilter, on the edge where the column key is non-nil every byte handed to the output derives from encryptModule, and the plaintext emission is not reachable from that edge; (config) every option-merging Configure method carries every field of its configuration struct from the field of the same name (an Encryption/Decryption option is never dropped); (construct) every path that creates column writers for a writer with encryption configured installs the column key and AAD state; (auth) bytes decoded on the encrypted read path come from decryptModule (C13.provenance) and no error of decryptModule, readDecryptedEnvelopeFrom, verifyFooterSignature or a KeyRetriever is dropped or swallowed; the decryption helpers never return a bare io.EOF of their own; (rand) buffers filled from crypto/rand (nonces, file identifier) have a non-zero constant length; (ordinals) the page ordinal advances once per page written, only after the page was accepted; (nocopy) the verbatim-copy eligibility consults the encryption state of both sides; (reset) the ordinal state of column writers is re-established on Reset (C17.reset). (readord) on the read side, wherever the page cursor of FilePages is repositioned the data page ordinal of the decryption state is assigned on the same path, and wherever that ordinal is repositioned the dictionary-page flag is assigned too (fields found by role). (fileid) the function that draws the random file identifier is reachable from (*writer).reset, which also assigns the column writers' reference to it; (missingkey) the branch accepting ErrKeyNotFound stores into a field of the column chunk, and every consumer of the chunk's decryption key also loads that field.",
+		Decided: "Structural necessary conditions: (aad) for every module type the writer-side and reader-side makeAAD call sites both exist, pass the same number of ordinals, and put row-group, column and page ordinals in that order (no ordinal position is fed from a field of another role); page header modules seal the serialised header and page body modules the body; (plaintext) in writeDataPage, writeDictionaryPage and writeBloomFilter, on the edge where the column key is non-nil every byte handed to the output derives from encryptModule, and the plaintext emission is not reachable from that edge; (config) every option-merging Configure method carries every field of its configuration struct from the field of the same name (an Encryption/Decryption option is never dropped); (construct) every path that creates column writers for a writer with encryption configured installs the column key and AAD state; (auth) bytes decoded on the encrypted read path come from decryptModule (C13.provenance) and no error of decryptModule, readDecryptedEnvelopeFrom, verifyFooterSignature or a KeyRetriever is dropped or swallowed; the decryption helpers never return a bare io.EOF of their own; (rand) buffers filled from crypto/rand (nonces, file identifier) have a non-zero constant length; (ordinals) the page ordinal advances once per page written, only after the page was accepted; (nocopy) the verbatim-copy eligibility consults the encryption state of both sides; (reset) the ordinal state of column writers is re-established on Reset (C17.reset). (readord) on the read side, wherever the page cursor of FilePages is repositioned the data page ordinal of the decryption state is assigned on the same path, and wherever that ordinal is repositioned the dictionary-page flag is assigned too (fields found by role). (fileid) the function that draws the random file identifier is reachable from (*writer).reset, which also assigns the column writers' reference to it; (missingkey) the branch accepting ErrKeyNotFound stores into a field of the column chunk, and every consumer of the chunk's decryption key also loads that field. (nilconfig) every dereference of FileConfig.Decryption is dominated by the non-nil edge of a test of that field.",
 		NotDecided: "cryptographic strength; exhaustive tamper detection; equality of decrypted rows; whether pages of a concurrently filled row group can know their row-group ordinal before commit.",
 		Assumptions: []string{"AES-GCM Seal/Open authenticate plaintext and AAD (crypto/cipher)"},
 		Run:         runC18,
@@ -23,6 +23,7 @@ func init() {
 }
 
 func runC18(c *Ctx) {
+	c18NilConfig(c)
 	c18AAD(c)
 	c18Plaintext(c)
 	runConfigMergeRule(c, "C18.config", map[string]string{
@@ -977,4 +978,74 @@ func c18MissingKey(c *Ctx) {
 	}
 	c.Stats[rule+".consumers_of_the_key"] = n
 	c.Min(rule, 5)
+}
+
+// c18NilConfig — decryption is optional configuration: every use of what
+// FileConfig.Decryption points to is dominated by the non-nil edge of a test of
+// that field. A dereference reached without the test turns a file that claims
+// to be encrypted (a tampered magic) into a panic instead of an error.
+func c18NilConfig(c *Ctx) {
+	rule := "C18.nilconfig"
+	p := c.P
+	f := p.LookupField("FileConfig", "Decryption")
+	if !c.Anchor(rule, "FileConfig.Decryption", f != nil) {
+		return
+	}
+	n := 0
+	for _, fn := range p.ModuleSSAFuncs() {
+		if fn.Origin() != nil || fn.Blocks == nil || fnPkgPath(fn) != modPath {
+			continue
+		}
+		isLoad := func(v ssa.Value) bool {
+			u, ok := v.(*ssa.UnOp)
+			if !ok || u.Op != token.MUL {
+				return false
+			}
+			fa, ok := u.X.(*ssa.FieldAddr)
+			if !ok {
+				return false
+			}
+			st := structOf(fa.X.Type())
+			return st != nil && st.Field(fa.Field).Origin() == f
+		}
+		// non-nil edges of tests of the field
+		var nonNil []*ssa.BasicBlock
+		for _, b := range fn.Blocks {
+			ifi, ok := b.Instrs[len(b.Instrs)-1].(*ssa.If)
+			if !ok {
+				continue
+			}
+			bo, ok := ifi.Cond.(*ssa.BinOp)
+			if !ok || (bo.Op != token.EQL && bo.Op != token.NEQ) {
+				continue
+			}
+			if !((isLoad(bo.X) && isNilConst(bo.Y)) || (isLoad(bo.Y) && isNilConst(bo.X))) {
+				continue
+			}
+			if bo.Op == token.NEQ {
+				nonNil = append(nonNil, b.Succs[0])
+			} else {
+				nonNil = append(nonNil, b.Succs[1])
+			}
+		}
+		k := 0
+		allInstrs(fn, false, func(_ *ssa.Function, ins ssa.Instruction) {
+			fa, ok := ins.(*ssa.FieldAddr)
+			if !ok || !isLoad(fa.X) {
+				return
+			}
+			n++
+			k++
+			guarded := false
+			for _, e := range nonNil {
+				// the edge, not merely its target: a block other paths join says nothing
+				if len(e.Preds) == 1 && e.Dominates(fa.Block()) {
+					guarded = true
+				}
+			}
+			// `a == nil || a.b == nil`: the dereference sits on the non-nil edge itself
+			c.Check(rule, FuncKey(fn)+" uses the decryption configuration only where it is known to be set#"+itoa(k), fa.Pos(), guarded, FuncKey(fn)+" dereferences FileConfig.Decryption at "+p.Pos(fa.Pos())+" without a dominating nil test: a file that claims an encrypted footer while no decryption was configured makes OpenFile panic instead of failing")
+		})
+	}
+	c.Min(rule, 2)
 }
